@@ -22,7 +22,7 @@ use crux_core::Core;
 use mc_kit::catch;
 use serde_json::{json, Value as Json};
 
-use crate::c10_app::{partial_app as pa, VerifApp};
+use crate::c10_app::{partial_app as pa, readable_app as ra, VerifApp};
 use crate::codec::{self, Alphabet, Container, Fmt, Level, Schema, Shape, Space, Val};
 
 #[derive(Clone, Copy, Debug, PartialEq, Eq)]
@@ -313,6 +313,239 @@ pub fn run(main_schema: &Schema) -> Report {
             }
         }
     }
-    let _ = Shape::Unit;
+    readable_family(&mut rep, &entries);
     rep
+}
+
+// ---------------------------------------------------------------------------------------------
+// Types with a compact and a readable serde form, registered through samples
+
+fn bincode_opts() -> impl bincode::Options + Copy {
+    use bincode::Options;
+    bincode::DefaultOptions::new().with_fixint_encoding().allow_trailing_bytes()
+}
+
+fn tok_val(t: &ra::Tok) -> Val {
+    Val::Bytes(t.0.to_vec())
+}
+
+fn uuid_val(u: &uuid::Uuid) -> Val {
+    Val::Bytes(u.as_bytes().to_vec())
+}
+
+fn ip_val(ip: &std::net::IpAddr) -> Val {
+    let octets = |o: &[u8]| Shape::NewType(Box::new(Val::Tuple(o.iter().map(|b| Val::UInt(8, *b as u128)).collect())));
+    match ip {
+        std::net::IpAddr::V4(a) => Val::Variant("IpAddr".into(), 0, "V4".into(), octets(&a.octets())),
+        std::net::IpAddr::V6(a) => Val::Variant("IpAddr".into(), 1, "V6".into(), octets(&a.octets())),
+    }
+}
+
+/// The wire form of an event as a non-human-readable serializer emits it, written down by hand
+/// from the types' documented compact forms (Tok: 4 bytes; Uuid: 16 bytes; IpAddr: enum of
+/// octet arrays).
+fn event_val(e: &ra::Event) -> Val {
+    let nt = |i: u32, n: &str, v: Val| Val::Variant("Event".into(), i, n.into(), Shape::NewType(Box::new(v)));
+    match e {
+        ra::Event::Leave => Val::Variant("Event".into(), 0, "Leave".into(), Shape::Unit),
+        ra::Event::Join(t) => nt(1, "Join", tok_val(t)),
+        ra::Event::Hold(h) => nt(
+            2,
+            "Hold",
+            Val::Struct(
+                "Holder".into(),
+                Shape::Struct(vec![
+                    ("tok".into(), tok_val(&h.tok)),
+                    ("maybe".into(), Val::Opt(h.maybe.as_ref().map(|t| Box::new(tok_val(t))))),
+                    ("many".into(), Val::Seq(h.many.iter().map(tok_val).collect())),
+                    ("session".into(), uuid_val(&h.session)),
+                    ("peer".into(), ip_val(&h.peer)),
+                ]),
+            ),
+        ),
+        ra::Event::Session(u) => nt(3, "Session", uuid_val(u)),
+        ra::Event::Peer(ip) => nt(4, "Peer", ip_val(ip)),
+    }
+}
+
+fn readable_events() -> Vec<ra::Event> {
+    use std::net::IpAddr;
+    let toks = [ra::Tok([0, 0, 0, 0]), ra::Tok([1, 2, 3, 4]), ra::Tok(*b"abcd"), ra::Tok([0xff, 0xfe, 0x80, 0x00]), ra::Tok([0xc3, 0x28, 0xa0, 0xa1])];
+    let uuids = [uuid::Uuid::nil(), uuid::Uuid::from_u128(0xf81d4fae_7dec_11d0_a765_00a0c91e6bf6), uuid::Uuid::from_u128(u128::MAX), uuid::Uuid::from_bytes(*b"0123456789abcdef")];
+    let ips = [
+        IpAddr::from([0, 0, 0, 0]),
+        IpAddr::from([127, 0, 0, 1]),
+        IpAddr::from([255, 255, 255, 255]),
+        IpAddr::from([0u16; 8]),
+        IpAddr::from([0, 0, 0, 0, 0, 0, 0, 1u16]),
+        IpAddr::from([0x2001, 0xdb8, 0, 0, 0, 0, 0, 0xffu16]),
+        IpAddr::from([0xffffu16; 8]),
+    ];
+    let mut out = vec![ra::Event::Leave];
+    out.extend(toks.iter().map(|t| ra::Event::Join(*t)));
+    out.extend(uuids.iter().map(|u| ra::Event::Session(*u)));
+    out.extend(ips.iter().map(|i| ra::Event::Peer(*i)));
+    for tok in &toks {
+        for maybe in [None, Some(toks[1]), Some(toks[3])] {
+            for many in [vec![], vec![*tok], vec![toks[3], toks[2]]] {
+                for session in &uuids {
+                    for peer in &ips {
+                        out.push(ra::Event::Hold(ra::Holder { tok: *tok, maybe, many: many.clone(), session: *session, peer: *peer }));
+                    }
+                }
+            }
+        }
+    }
+    out
+}
+
+/// What a non-human-readable tracer sees for the same samples (the reference for the message).
+fn compact_reference() -> Result<Schema, String> {
+    let mut tracer = serde_reflection::Tracer::new(serde_reflection::TracerConfig::default().is_human_readable(false));
+    let mut samples = serde_reflection::Samples::new();
+    for s in ra::samples() {
+        tracer.trace_value(&mut samples, &s).map_err(|e| e.to_string())?;
+    }
+    tracer.trace_type::<ra::Event>(&samples).map_err(|e| e.to_string())?;
+    codec::schema_of(&tracer.registry().map_err(|e| e.to_string())?)
+}
+
+fn readable_family(rep: &mut Report, entries: &[Entry]) {
+    use bincode::Options;
+    let events = readable_events();
+    let event_fmt = Fmt::TypeName("Event".into());
+    // once per value: the hand-written compact form is what serde writes, the real reader
+    // accepts it, and the real bridge understands it as the same value
+    struct Item {
+        debug: String,
+        expected: Val,
+        bytes: Vec<u8>,
+        view: Option<Vec<u8>>,
+    }
+    let mut items = vec![];
+    for e in &events {
+        rep.states += 1;
+        let expected = event_val(e);
+        let bytes = codec::encode(&expected);
+        let debug = format!("{e:?}");
+        let r = catch(|| {
+            let written = bincode_opts().serialize(e).map_err(|x| format!("bincode refuses to write {debug}: {x}"))?;
+            if written != bytes {
+                return Err(format!("for {debug} the bridge's serializer writes {} but the documented compact form is {}", hex(&written), hex(&bytes)));
+            }
+            let back: ra::Event = bincode_opts().deserialize(&bytes).map_err(|x| format!("the real deserializer refuses the compact form {} of {debug}: {x}", hex(&bytes)))?;
+            if &back != e {
+                return Err(format!("the real deserializer reads the compact form of {debug} as {back:?}"));
+            }
+            let bridge: Bridge<ra::ReadableApp> = Bridge::new(Core::new());
+            bridge.process_event(&bytes).map_err(|x| format!("the bridge refuses the compact form of {debug}: {x}"))?;
+            bridge.view().map_err(|x| format!("view fails after {debug}: {x}"))
+        });
+        rep.transitions += 4;
+        match r {
+            Ok(Ok(view)) => items.push(Item { debug, expected, bytes, view: Some(view) }),
+            Ok(Err(why)) => {
+                rep.found.push(Found { key: "ReadableApp/compact-form-not-what-serde-writes-or-reads".into(), what: why, replay: json!({"engine": "enumx/C10", "kind": "typegen"}), size: bytes.len() });
+                items.push(Item { debug, expected, bytes, view: None });
+            }
+            Err(p) => rep.found.push(Found { key: format!("ReadableApp/{}", p.key()), what: format!("panic `{}` at {}:{} on {debug}", p.message, p.file, p.line), replay: json!({"engine": "enumx/C10", "kind": "typegen"}), size: bytes.len() }),
+        }
+    }
+    *rep.classes.entry("readable-form app: compact form written by serde, accepted by the real reader and the real bridge".into()).or_insert(0) += items.iter().filter(|i| i.view.is_some()).count() as u64;
+    let reference = compact_reference();
+    rep.info.insert(
+        "readable_form_app".into(),
+        json!({
+            "types_with_two_serde_forms": ["Tok (harness type: 8 hex digits when human-readable, 4 raw bytes otherwise)", "uuid::Uuid", "std::net::IpAddr"],
+            "positions": ["Event variant payload", "struct field", "Option", "Vec"],
+            "registered_by": "register_type_with_samples(6 sample events) then register_app, as documented",
+            "values": events.len(),
+            "family": "5 tokens (zero, ascii, non-UTF-8) x {None, Some} x {0,1,2 element Vec} x 4 uuids (nil, RFC example, max, ascii bytes) x 7 addresses (v4 and v6 extremes), plus every single-field event",
+        }),
+    );
+    if let Some(i) = items.iter().find(|i| i.debug.starts_with("Join(Tok([255")) {
+        rep.samples.push(json!({"readable_form_app": i.debug, "wire_hex": hex(&i.bytes), "wire_structure": codec::render(&i.expected)}));
+    }
+    for e in entries {
+        let dir = TempDir::new(&format!("readable-{e:?}"));
+        rep.states += 1;
+        rep.transitions += 3;
+        let generated = generate(
+            *e,
+            |g| {
+                g.register_type_with_samples(ra::samples())?;
+                g.register_app::<ra::ReadableApp>()
+            },
+            &dir.0,
+        );
+        let schema = match generated {
+            Err(err) => {
+                *rep.classes.entry(format!("{}: readable-form app: VIOLATION generation fails", e.name())).or_insert(0) += 1;
+                rep.found.push(Found { key: "typegen/sampled-app-generation-fails".into(), what: format!("{} fails for an app registered the documented way (register_type_with_samples, then register_app): {err}", e.name()), replay: json!({"engine": "enumx/C10", "kind": "typegen"}), size: 1 });
+                continue;
+            }
+            Ok((Err(why), _)) => {
+                rep.found.push(Found { key: "typegen/unresolved-registry-generated".into(), what: format!("{} generated for the sampled app from a registry that is not a schema: {why}", e.name()), replay: json!({"engine": "enumx/C10", "kind": "typegen"}), size: 1 });
+                continue;
+            }
+            Ok((Ok(s), _)) => s,
+        };
+        let mut failing: Vec<(&Item, String)> = vec![];
+        for i in &items {
+            rep.transitions += 2;
+            match codec::decode(&event_fmt, &schema, &i.bytes) {
+                Ok((v, used)) if used == i.bytes.len() && v == i.expected => {}
+                Ok((v, used)) if used == i.bytes.len() => failing.push((i, format!("decodes as {} where the wire carries {}", codec::render(&v), codec::render(&i.expected)))),
+                Ok((v, used)) => failing.push((i, format!("decodes as {} with {} byte(s) of residue", codec::render(&v), i.bytes.len() - used))),
+                Err(x) => failing.push((i, format!("does not decode: {} at byte {} (in {})", x.what, x.at, x.container))),
+            }
+            if let Some(view) = &i.view {
+                let understood = match codec::decode(&Fmt::TypeName("ViewModel".into()), &schema, view) {
+                    Ok((Val::Struct(_, Shape::Struct(fs)), used)) if used == view.len() => fs.iter().any(|(n, v)| n == "last" && *v == Val::Str(i.debug.clone())),
+                    _ => false,
+                };
+                if !understood {
+                    failing.push((i, "the view the core emits afterwards does not decode under the generated schema to what the app understood".into()));
+                }
+            }
+        }
+        let lacks = match &reference {
+            Ok(r) => {
+                let mut d = truncated(&schema, r);
+                for (name, c) in r {
+                    if let Some(g) = schema.get(name) {
+                        if g != c && !matches!((g, c), (Container::Enum(a), Container::Enum(b)) if a.len() != b.len()) {
+                            let (mut gs, mut cs) = (format!("{g:?}"), format!("{c:?}"));
+                            gs.truncate(260);
+                            cs.truncate(260);
+                            d.push(format!("{name}: generated {gs} / compact {cs}"));
+                        }
+                    }
+                }
+                d
+            }
+            Err(why) => vec![format!("(no compact reference: {why})")],
+        };
+        rep.info.insert(format!("{} for the sampled readable-form app", e.name()), json!({"result": "generated", "values_that_disagree": failing.len(), "differences_from_a_non_human_readable_trace": lacks}));
+        if failing.is_empty() {
+            *rep.classes.entry(format!("{}: readable-form app: generated schema describes the compact wire form", e.name())).or_insert(0) += items.len() as u64;
+        } else {
+            *rep.classes.entry(format!("{}: readable-form app: VIOLATION schema differs from wire", e.name())).or_insert(0) += failing.len() as u64;
+            let (i, why) = failing.iter().min_by_key(|(i, _)| i.bytes.len()).unwrap();
+            rep.found.push(Found {
+                key: "typegen/sampled-type-schema-differs-from-wire".into(),
+                what: format!(
+                    "{} generated types for an app registered with samples whose schema does not describe what the bincode bridge carries: {} of {} values disagree; e.g. {} travels as {} and under the generated schema {why}; schema differences from a non-human-readable trace of the same samples: {}",
+                    e.name(),
+                    failing.len(),
+                    items.len(),
+                    i.debug,
+                    hex(&i.bytes),
+                    lacks.join("; ")
+                ),
+                replay: json!({"engine": "enumx/C10", "kind": "typegen", "entry": e.name(), "family": "readable-form app"}),
+                size: 3,
+            });
+        }
+    }
 }
